@@ -1,4 +1,5 @@
 import HexVerif.Lemmas.XcmpJunk
+import HexVerif.Lemmas.AsmJunk
 /-!
   Property C11: compilation is a deterministic function of the source - the part shown by proof.
 
@@ -46,3 +47,13 @@ example : tokensOutputJ 0xDEAD#32 (bytesOf "proc main() is 0(7)") = tokensOutput
   C11_tokens_junk _ _ _
 
 end Hex.Xcmp
+
+namespace Hex.Asm
+
+/-- hexasm: the token sequence does not depend on the junk in `Lexer::value`, except in the `value`
+    field of tokens that are not NUMBER - which `Asm.parseProgram` never reads (`parseInteger` reads it
+    under `tok = NUMBER` only).  The parser-level statement is not proved yet. -/
+theorem C11_asm_tokens_junk (j1 j2 : Nat) (src : List Byte) : RToks (tokenizeJ j1 src) (tokenizeJ j2 src) :=
+  tokenizeJ_rel j1 j2 src
+
+end Hex.Asm
